@@ -1166,7 +1166,12 @@ class Bench:
         self.n_ok_state += 1
         kf = self.known.match_solution(self, ev, sop) if self.known is not None and sop is not None else None
         self.after_result(ev, named, key, builder=True, solvent_pre=sop_pre, known=kf)
-        return {'out': 'ok'}
+        rec = {'out': 'ok'}
+        if sop is not None and sop.base.volume > 0:
+            # how far the request was from needing everything the solvent container holds (C18 compares decisions only
+            # away from that boundary)
+            rec['margin_rel'] = float(resid.volume) / float(sop.base.volume)
+        return rec
 
     def check_conservation_builder(self, key, before, resid, sol, ev):
         """Only used as a reach probe; create_solution is not judged (C05 not claimed)."""
@@ -1204,7 +1209,12 @@ class Bench:
             self.check_result_object(o, key, 'result')
         self.n_ok_state += 1
         self.after_result(ev, named, key, builder=True)
-        return {'out': 'ok'}
+        rec = {'out': 'ok'}
+        fr = [float(r.volume) / float(b.volume) for r, b in ([(res[0], sop.base)] + ([(res[1], vop.base)] if vop is not None else []))
+              if b.volume > 0]
+        if fr:
+            rec['margin_rel'] = min(fr)     # distance from draining the stock / the solvent container completely
+        return rec
 
     # ---- keep a slice alive across events (aliasing probe for C04)
     def ev_hold_slice(self, ev):
